@@ -65,7 +65,10 @@ func c11OpType(c *core.Ctx, op string, t reflect.Type) {
 				continue
 			}
 			dests := []string{""}
-			if kind == "reuse-bool" || kind == "reuse-same" || kind == "reuse-unfit" {
+			if kind == "reuse-bool" || kind == "reuse-same" {
+				dests = []string{gen.LC, gen.LF}
+			}
+			if kind == "reuse-unfit" {
 				dests = []string{gen.LC}
 			}
 			for _, form := range []string{"TT", "TS", "ST", "TSt", "StT"} {
